@@ -11,7 +11,7 @@ NOTE_COMMON = ("Trusted: Coq 8.16.1 kernel (coqc full .vo build; vm_compute for 
 CHECKS = {
     "C19": dict(
         text="PARTIAL. Theorems: for the hand-written byte codecs (PS public key with its two embedded counts, PS secret key, PS signature, PS proof of knowledge, PS blind-signature context, BBS proof of knowledge) decode(encode x) = x for every key size and every number of responses, and (except for the PS secret key, whose refutation is exhibited: the scalar library's from_repr accepts non-canonical encodings) whatever decodes re-encodes to the very bytes it came from — over abstract fixed-width leaf codecs for compressed points, and with the big- and little-endian canonical scalar codecs proved to be such leaves; the two decoders of the pinned tree that could not accept any encoding are characterised (repaired). "
-             "The serde data-model layer (claim types, hashed claims, claims, validators with skipped bounds, claim schemas with skipped validator lists, credential schemas with skipped label / description and the order-preserving set adapters) is an executable model of what the Serialize impls hand to human-readable and to binary serializers, with by-name and positional decoders; its round-trip statements are evaluated on every generated instance, not yet proved for all instances. The concrete syntaxes of serde_json / serde_cbor / serde_bare and the derived impls without attributes are covered by round trips only. "
+             "The serde data-model layer (claim types, hashed claims, claims, validators with skipped bounds, claim schemas with skipped validator lists, credential schemas with skipped label / description and the order-preserving set adapters) is an executable model of what the Serialize impls hand to human-readable and to binary serializers, with by-name and positional decoders; for which decode-by-name after serialise is proved to return the object for every claim, validator, claim schema and credential schema and both kinds of serializer, and positional (BARE) decoding of validators is proved to succeed when no bound was skipped and refuted otherwise (the known finding). The concrete syntaxes of serde_json / serde_cbor / serde_bare and the derived impls without attributes are covered by round trips only. "
              "Correspondence: every object kind x {JSON, CBOR, BARE} x {BBS, PS}: decode(encode(x)) succeeds, re-encodes to the same bytes, has the same JSON and CBOR encodings as x (the decoded object is the original) and gives the same verdict when used (issuance decision on conformant and violating claim vectors, presentation creation / verification, refresh and re-issue from a restored issuer, blind signing, unblinding); a recording serde Serializer dumps the data-model tree of the real impls, compared with the model's tree for both kinds of serializer; BARE success is compared with the model's skipped-field predicate; every hand-written from_bytes is compared byte for byte with the layout model on honest and mutated encodings (point validity handed to the model as a table).",
         design="§7 C19, §15",
         note="Known finding: BARE cannot decode an object with a skipped optional field. Third-party: serde format crates, blstrs_plus point / scalar codecs (leaf hypotheses), bulletproofs RangeProof bytes.",
